@@ -10,3 +10,8 @@ claim("C25",
       "exhaustive enumeration of instance-step interleavings on the real code, differential against solo runs",
       "Every interleaving of 2 instances x 5 steps and 3 x 2 (thorough: 2 x 8 and 3 x 4; steps of 1, 7, 61 and 17,556 machine cycles), under three creation orders (all first / lazily / an extra instance created mid-run), is executed on real instances wired like gameboy.New; after every step every live instance must equal its own solo run at the same step count (registers and reads; all writable regions and the frame at the end). The schedule space is enumerated completely within the stated shape.",
       "Schedules are explored in one goroutine under a supervisor process so that a shared-state defect fails deterministically (including the emulator's own os.Exit). Memory-model-level data races between truly parallel instances are outside a cooperative schedule enumeration; package-level mutable state is what the interleavings expose.")
+
+claim("C12",
+      "exhaustive depth/deviation-bounded enumeration of tick/write interleavings on the real Timer in lock-step with a cycle-indexed reference timer",
+      "Every sequence over {tick, wDIV, wTIMA v, wTMA v, wTAC t} (16 events) up to depth 9 with at most 3 writes (thorough: depth 14 / 3 writes and depth 9 / 4 writes) is executed on the real timer.Timer from ~5,000 start states placed at every counter phase around the rising and falling edge of each selectable bit, around counter wrap and at power-on; after every event DIV/TIMA/TMA/TAC read-back and the interrupt result are compared with an independent reference timer whose reload machine is indexed by cycles only. Writes are additionally placed at every offset around every overflow of long runs.",
+      "Trusted: ref/timer.go (Pan Docs timer obscure behaviour). Don't-cares pruned rather than judged: writes in the cycle after a cancelled reload; increment coinciding with a TMA-write load. Value alphabet for TIMA/TMA writes is {00,57,FF}.")
